@@ -5,6 +5,8 @@ AllRanges == {<<a, b>> : a \in 1..(NChunks * CS), b \in 1..(NChunks * CS)} \cap 
 (* one representative per combination of (first chunk, last chunk, partial at the left, partial at the right) *)
 EdgeRanges == {r \in AllRanges : r[1] \in {(PosOf(r[1]) - 1) * CS + 1, PosOf(r[1]) * CS} /\ r[2] \in {(PosOf(r[2]) - 1) * CS + 1, PosOf(r[2]) * CS}}
 WholeChunkRanges == {r \in AllRanges : r[1] = (PosOf(r[1]) - 1) * CS + 1 /\ r[2] = PosOf(r[2]) * CS}
+(* the ranges that make a gap chunk: a single chunk in the middle, everything, one side *)
+GapRanges == {<<2, 2>>, <<1, 3>>, <<1, 1>>}
 AllOld == [p \in Poss |-> "old"]
 LastOpen == [p \in Poss |-> IF p = NChunks THEN "open" ELSE "old"]
 LastLinger == [p \in Poss |-> IF p = NChunks THEN "linger" ELSE "old"]
